@@ -38,10 +38,18 @@ class C02(Prop):
         cfgs = self.select_configs(envs.get(task["env"]), task["tier"])
         if task["shard"] == 0 and len(cfgs) >= 2:
             idx = [c["id"] for c in cfgs].index(task["cfg"]["id"])
-            if idx >= 1 and not task["cfg"].get("clock"):
+            menu = [c for c in envs.get(task["env"]).configs() if not c.get("clock")]
+            if idx == 0 and len(menu) >= 2:
+                # the default configuration after every other configuration of the menu was built and used in the same
+                # process (menus contain same-shape, different-parameter variants: memo keys tend to collide there)
                 t = dict(task)
                 t["kind"] = "xhist_after"
-                t["first_cfg"] = cfgs[0] if task["tier"] == "quick" else cfgs[idx - 1]
+                t["first_cfgs"] = [c for c in menu if c["id"] != task["cfg"]["id"]][:6]
+                out.append(t)
+            elif idx >= 1 and not task["cfg"].get("clock"):
+                t = dict(task)
+                t["kind"] = "xhist_after"
+                t["first_cfgs"] = [cfgs[0] if task["tier"] == "quick" else cfgs[idx - 1]]
                 out.append(t)
         return out
 
